@@ -146,6 +146,8 @@ let handle (s : sexp) : string = match s with
   | L [A "jacf"; odd; red; f; tol] ->
       let red = list_of q_of red and f = list_of q_of f in
       "(" ^ sb (check_jac_f (bool_of odd) red f (q_of tol)) ^ " " ^ so sz (im_target_norm (bool_of odd) red f) ^ ")"
+  | L [A "jac3"; odd; red; a; vals] ->
+      so (sl sz) (jac3_dists (bool_of odd) (list_of q_of red) (q_of a) (list_of q_of vals))
   | L [A "jacdf"; odd; red; k; col; tol] ->
       sb (check_jac_df_col (bool_of odd) (list_of q_of red) (nat_of k) (list_of q_of col) (q_of tol))
   | L [A "imtarget"; odd; red; c; tol] ->
